@@ -109,12 +109,30 @@ fn bstr(b: &[u8]) -> Vec<u8> {
 
 /// COSE_Signature chain of depth d: protected ⊃ counter-signature ⊃ protected ⊃ …
 /// shape 0: through protected headers only; 1: through unprotected headers only; 2: alternating.
-pub fn countersig_chain(d: usize, shape: usize) -> Vec<u8> {
+/// form: how label 7 carries the next level — 0: a single COSE_Signature inlined; 1: an array of
+/// one; 2: an array of two (the deeper one last); 3: alternating between single and array.
+pub fn countersig_chain_form(d: usize, shape: usize, form: usize) -> Vec<u8> {
     // innermost: [h'', {}, h'']
     let mut sig = vec![0x83, 0x40, 0xa0, 0x40];
     for level in 0..d {
         let mut hdr = vec![0xa1, 0x07];
-        hdr.extend_from_slice(&sig);
+        let as_array = match form {
+            0 => 0,
+            1 => 1,
+            2 => 2,
+            _ => level % 2,
+        };
+        match as_array {
+            0 => hdr.extend_from_slice(&sig),
+            1 => {
+                hdr.push(0x81);
+                hdr.extend_from_slice(&sig);
+            }
+            _ => {
+                hdr.extend_from_slice(&[0x82, 0x83, 0x40, 0xa0, 0x40]);
+                hdr.extend_from_slice(&sig);
+            }
+        }
         let through_protected = match shape {
             0 => true,
             1 => false,
@@ -132,6 +150,10 @@ pub fn countersig_chain(d: usize, shape: usize) -> Vec<u8> {
         sig = next;
     }
     sig
+}
+
+pub fn countersig_chain(d: usize, shape: usize) -> Vec<u8> {
+    countersig_chain_form(d, shape, 0)
 }
 
 /// Wrap a COSE_Signature chain into a carrier of another type.
@@ -272,8 +294,10 @@ fn gen_bomb(g: &mut Gen, ctx: &mut Ctx) -> Vec<u8> {
             // keep the byte size in bounds: each protected level adds ~8 bytes + growing heads
             let d = d.min(60_000).min(max_len / 12);
             let carrier = g.below(9);
+            let form = g.below(4);
+            ctx.classf(format!("bomb:countersig-chain:form{}", form));
             ctx.classf(format!("bomb:countersig-chain:shape{}:depth{}", shape, match d { 0..=15 => "<16", 16..=63 => "<64", 64..=255 => "<256", 256..=1023 => "<1024", _ => ">=1024" }));
-            chain_in_carrier(&countersig_chain(d, shape), carrier)
+            chain_in_carrier(&countersig_chain_form(d, shape, form), carrier)
         }
         _ => {
             // recipients nested through plain arrays
@@ -406,7 +430,7 @@ pub fn property() -> Property {
         title: "Untrusted bytes never crash decoding or the processing that follows it",
         rule: "byte strings in four modes — uniform random (<= 4 KiB); valid wire messages of all 26 types (styled, optionally tagged) with 0-8 byte-level mutations (bit flips, overwrites, truncation, spliced slices, huge lengths, insertions); \
                shape bombs (arity 0..7 arrays of arbitrary slots, counter-signature / key_ops / crit oddities); size/depth bombs up to 1 MiB (thorough 4 MiB): nesting to depth 2^17, huge declared lengths, chunk chains, wide flat arrays/maps/key sets/signer lists, \
-               recipient nesting, and protected-header ⊃ counter-signature chains of depth up to 60000 in three shapes inside nine carriers — through every decoding entry point (from_slice of every type, from_tagged_slice of the six tagged types, ProtectedHeader::from_cbor_bstr), \
+               recipient nesting, and protected-header ⊃ counter-signature chains of depth up to 60000 in three shapes (protected / unprotected / alternating) x four forms (single counter-signature, array of one, array of two, alternating) inside nine carriers — through every decoding entry point (from_slice of every type, from_tagged_slice of the six tagged types, ProtectedHeader::from_cbor_bstr), \
                followed on accepted values by clone, ==, Debug, re-encode, drop and the to-be-signed / verify / MAC / decrypt helpers under their documented preconditions; in a supervised worker on a 2 MiB stack; \
                oracle: no panic, no process death, heap peak <= 4096n+2MiB and total allocation <= 16384n+8MiB per entry point (>= 8x the maxima observed on the unchanged tree, which the evidence reports) (deterministic proxy for linear time), a watchdog for hangs (inconclusive, not a violation); \
                non-trivial = well-formed CBOR accepted by some entry point, or any bomb; distinct by input bytes",
